@@ -48,6 +48,7 @@ package paillier
 //@   props C06 C14 C13 C11
 //@   requires wfPK(publicKey) && m != nil && c1 != nil
 //@   ensures [C14.domain] (result1 == nil) <==> (0 <= val(m) && val(m) < val(publicKey.N) && 0 <= val(c1) && val(c1) < nsq(publicKey))
+//@   ensures [C13.mta-scalar-domain-is-exactly-0-to-N] (result1 == nil) <==> (0 <= val(m) && val(m) < val(publicKey.N) && 0 <= val(c1) && val(c1) < nsq(publicKey))
 //@   ensures [C14.formula] result1 == nil ==> (result0 != nil && fresh(result0) && val(result0) == powmod(val(c1), val(m), nsq(publicKey)))
 //@   ensures result1 != nil ==> result0 == nil
 
@@ -55,6 +56,7 @@ package paillier
 //@   props C06 C14 C13 C11
 //@   requires wfPK(publicKey) && c1 != nil && c2 != nil
 //@   ensures [C14.domain] (result1 == nil) <==> (0 <= val(c1) && val(c1) < nsq(publicKey) && 0 <= val(c2) && val(c2) < nsq(publicKey))
+//@   ensures [C13.mta-ciphertext-domain-is-exactly-0-to-N2] (result1 == nil) <==> (0 <= val(c1) && val(c1) < nsq(publicKey) && 0 <= val(c2) && val(c2) < nsq(publicKey))
 //@   ensures [C14.formula] result1 == nil ==> (result0 != nil && fresh(result0) && val(result0) == (val(c1) * val(c2)) % nsq(publicKey))
 //@   ensures result1 != nil ==> result0 == nil
 
